@@ -474,35 +474,40 @@ def cfg_of(func_node: ast.AST) -> CFG:
     return _CACHE[k]
 
 
-def reachable_with_flag(g: CFG, starts: Iterable[Tuple[int, Optional[bool]]], flag: str,
+def reachable_with_flag(g: CFG, starts: Iterable[Tuple[int, Optional[bool]]], flag,
                         follow_exc: bool = False) -> Set[int]:
-    """Reachability that tracks one boolean local *flag* (constant assignments,
-    ``if flag:`` / ``if not flag:`` tests) so the 'set flag; break; if flag: break'
-    idiom is followed path-sensitively."""
-    seen: Set[Tuple[int, Optional[bool]]] = set()
-    work = list(starts)
+    """Reachability that tracks boolean locals (*flag*: one name or several; constant assignments, ``if flag:`` /
+    ``if not flag:`` tests) so the 'set flag; break; if flag: break' idiom is followed path-sensitively.  A start value other
+    than None applies to the first flag."""
+    flags = [flag] if isinstance(flag, str) else list(flag)
+    seen: Set[Tuple[int, Tuple]] = set()
+    work = []
+    for n0, v0 in starts:
+        st0 = tuple((f, v0 if i == 0 else None) for i, f in enumerate(flags))
+        work.append((n0, st0))
     while work:
-        n, val = work.pop()
-        if (n, val) in seen:
+        n, st = work.pop()
+        if (n, st) in seen:
             continue
-        seen.add((n, val))
+        seen.add((n, st))
         node = g.nodes[n]
-        out_val = val
+        vals = dict(st)
         if node.kind == "stmt" and isinstance(node.ast, ast.Assign) and len(node.ast.targets) == 1 and \
-                isinstance(node.ast.targets[0], ast.Name) and node.ast.targets[0].id == flag:
+                isinstance(node.ast.targets[0], ast.Name) and node.ast.targets[0].id in vals:
             v = node.ast.value
-            out_val = bool(v.value) if isinstance(v, ast.Constant) else None
+            vals[node.ast.targets[0].id] = bool(v.value) if isinstance(v, ast.Constant) and v.value is not None else None
+        out = tuple((f, vals[f]) for f in flags)
         for d, lab in g.succ[n]:
             if not follow_exc and (lab or "").startswith("exc"):
                 continue
-            if node.kind == "test" and lab in ("T", "F") and out_val is not None:
+            if node.kind == "test" and lab in ("T", "F"):
                 t = node.ast
                 neg = False
                 if isinstance(t, ast.UnaryOp) and isinstance(t.op, ast.Not):
                     t, neg = t.operand, True
-                if isinstance(t, ast.Name) and t.id == flag:
-                    truth = out_val != neg
+                if isinstance(t, ast.Name) and vals.get(t.id) is not None:
+                    truth = vals[t.id] != neg
                     if (lab == "T") != truth:
                         continue
-            work.append((d, out_val))
+            work.append((d, out))
     return {n for n, _ in seen}
